@@ -19,6 +19,7 @@ func init() {
 			"wide scenario: every NAL type 0-47 x every layer id 0-63 (TID 1) and every TID 1-7 alone and next to a small unit; units of 300, 257*(MTU-3)+2 (more than 256 FUs), 66000 bytes for MTU {6,100,1200,65535}; all sequences of 5-7 units over {3B, MTU-2 B, MTU+1 B} with alternating layer ids; aggregation of units of {3,255,256,257,300} bytes at MTU {600,1200,65535}; 64-600 small units in one call (more than 256 units per aggregation packet)",
 			"large aggregation candidates: all sequences of 2-3 units of {3,20000,30000,32768,40000,65000} bytes at MTU {32767,32768,40000,65535}; unit bodies: EVERY body of 1-6 bytes (thorough 7) over {00,01,03,FF} that is legal inside a NAL unit (no 00 00 00 / 00 00 01, no trailing 00), between two other units, 3- and 4-byte start codes, MTU {6,100}",
 			"DON values are not demanded, only their placement; the payloader's DONL in every FU (pinned by an existing test) is a listed known finding matched by an exact defect model",
+			"the four structure decoders (H265SingleNALUnitPacket, H265AggregationPacket, H265FragmentationUnitPacket, H265PACIPacket) are also called directly on the structure they are for, with the same oracle as H265Packet",
 			"a truncation must be rejected unless the prefix is itself well-formed under the reference parser",
 		},
 		Scenarios: []mc.Scenario{
@@ -472,6 +473,50 @@ func c14Parser(c *mc.Ctx) {
 		accepted++
 		c14CompareParsed(c, p, want, in, donl)
 	}
+	// the decoders of the four structures are exported types of their own: called directly on
+	// the structure they are for, they accept and reject the same inputs and decode the same fields
+	kind := []string{"single", "ap", "fu", "paci"}[form]
+	for cut := 0; cut <= len(payload); cut++ {
+		var in []byte
+		if cut > 0 || form%2 == 0 {
+			in = clone(payload[:cut])
+		}
+		want, werr := ref.H265Parse(in, donl)
+		if werr == nil && want.Kind != kind {
+			continue
+		}
+		var pk interface {
+			Unmarshal([]byte) ([]byte, error)
+		}
+		switch kind {
+		case "single":
+			s := &codecs.H265SingleNALUnitPacket{}
+			s.WithDONL(donl)
+			pk = s
+		case "ap":
+			s := &codecs.H265AggregationPacket{}
+			s.WithDONL(donl)
+			pk = s
+		case "fu":
+			s := &codecs.H265FragmentationUnitPacket{}
+			s.WithDONL(donl)
+			pk = s
+		default:
+			pk = &codecs.H265PACIPacket{}
+		}
+		_, err := pk.Unmarshal(in)
+		c.Ops(1)
+		if werr != nil {
+			if err == nil {
+				c.Failf("truncated-accepted", "%T.Unmarshal directly: payload %s (DONL=%v) cut to %d bytes (%s) was accepted; reference parser: %v", pk, hx(payload), donl, cut, hx(in), werr)
+			}
+			continue
+		}
+		if err != nil {
+			c.Failf("well-formed-rejected", "%T.Unmarshal directly: payload %s (DONL=%v): %v", pk, hx(in), donl, err)
+		}
+		c14ComparePacket(c, pk, want, in, donl)
+	}
 	c.Cases(len(payload))
 	if accepted > 0 {
 		c.NonTrivial()
@@ -487,6 +532,11 @@ func c14U16(p *uint16) interface{} {
 }
 
 func c14CompareParsed(c *mc.Ctx, p *codecs.H265Packet, want *ref.H265Parsed, in []byte, donl bool) {
+	c14ComparePacket(c, p.Packet(), want, in, donl)
+}
+
+// c14ComparePacket compares one decoded structure with the reference parse.
+func c14ComparePacket(c *mc.Ctx, packet interface{}, want *ref.H265Parsed, in []byte, donl bool) {
 	bad := func(format string, a ...interface{}) {
 		c.Failf("parsed-fields-differ", "payload %s (DONL=%v, %s): %s", hx(in), donl, want.Kind, fmt.Sprintf(format, a...))
 	}
@@ -496,7 +546,7 @@ func c14CompareParsed(c *mc.Ctx, p *codecs.H265Packet, want *ref.H265Parsed, in 
 	hdrOK := func(h codecs.H265NALUHeader) bool {
 		return byte(h>>8) == in[0] && byte(h) == in[1]
 	}
-	switch pk := p.Packet().(type) {
+	switch pk := packet.(type) {
 	case *codecs.H265SingleNALUnitPacket:
 		if want.Kind != "single" {
 			bad("library parsed a single NAL unit packet")
@@ -553,7 +603,7 @@ func c14CompareParsed(c *mc.Ctx, p *codecs.H265Packet, want *ref.H265Parsed, in 
 		}
 		c14CheckTSCI(c, pk, want.Fields, want.PHES, in)
 	default:
-		bad("Packet() is %T", p.Packet())
+		bad("Packet() is %T", packet)
 	}
 }
 
